@@ -5,6 +5,7 @@ import IsoVerif.Model.PolyAFinder
 import IsoVerif.Model.TailSpec
 import IsoVerif.Model.FinderChar
 import IsoVerif.Model.FinderPad
+import IsoVerif.Model.FinderMirror
 
 namespace IsoVerif.Driver.C16
 open Lean IsoVerif.Driver IsoVerif.Gen IsoVerif.Model IsoVerif.Model.C16
@@ -86,7 +87,7 @@ def ops : List (String × Handler) := [
       | none => pure (jErr "error")
       | some c =>
         let seq ← jStr (← arg j "seq")
-        pure (ofOptInt (findPolytHeadSpecFix (← jNat (← arg j "w")) (← jNat (← arg j "num")) (← jNat (← arg j "den"))
+        pure (ofOptInt (findPolytHeadSpecWin (← jNat (← arg j "w")) (← jNat (← arg j "num")) (← jNat (← arg j "den"))
           (← jInt (← arg j "s")) c seq.toList (← jInt (← arg j "from")) (← jInt (← arg j "to"))
           (← jBool (← arg j "chk"))))),
   -- the tree before `fix: padding inside the walked tail` (Props/C16Pad.lean: `pad_in_tail_witness`)
@@ -116,6 +117,14 @@ def ops : List (String × Handler) := [
       | none => pure (jErr "error")
       | some c =>
         let seq ← jStr (← arg j "seq")
+        pure (ofOptInt (findPolytHeadWin (← jNat (← arg j "w")) (← jNat (← arg j "num")) (← jNat (← arg j "den"))
+          (← jInt (← arg j "s")) c seq.toList (← jInt (← arg j "from")) (← jInt (← arg j "to"))
+          (← jBool (← arg j "chk"))))),
+  ("find_polyt_head_oldwin", fun j => do
+      match ← jCigar (← arg j "cigar") with
+      | none => pure (jErr "error")
+      | some c =>
+        let seq ← jStr (← arg j "seq")
         pure (ofOptInt (findPolytHeadFix (← jNat (← arg j "w")) (← jNat (← arg j "num")) (← jNat (← arg j "den"))
           (← jInt (← arg j "s")) c seq.toList (← jInt (← arg j "from")) (← jInt (← arg j "to"))
           (← jBool (← arg j "chk"))))),
@@ -129,7 +138,7 @@ def ops : List (String × Handler) := [
         let st := getReadBlocks s c
         if st.refBlocks.isEmpty then pure (Json.mkObj [("no_exons", ofBool true)])
         else
-          match detectPolyaFix polya_window polya_fraction_num polya_fraction_den s c seq.toList with
+          match detectPolyaWin polya_window polya_fraction_num polya_fraction_den s c seq.toList with
           | none => pure (jErr "error")
           | some i =>
             pure (Json.mkObj [("found", ofInfo i),
@@ -139,7 +148,7 @@ def ops : List (String × Handler) := [
       | none => pure (jErr "error")
       | some c =>
         let seq ← jStr (← arg j "seq")
-        match detectPolyaFix (← jNat (← arg j "w")) (← jNat (← arg j "num")) (← jNat (← arg j "den"))
+        match detectPolyaWin (← jNat (← arg j "w")) (← jNat (← arg j "num")) (← jNat (← arg j "den"))
             (← jInt (← arg j "s")) c seq.toList with
         | none => pure (jErr "error")
         | some i => pure (ofInfo i)),
@@ -149,7 +158,7 @@ def ops : List (String × Handler) := [
       | none => pure (jErr "error")
       | some c =>
         let seq ← jStr (← arg j "seq")
-        match detectPolyaFix polya_window polya_fraction_num polya_fraction_den (← jInt (← arg j "s")) c seq.toList with
+        match detectPolyaWin polya_window polya_fraction_num polya_fraction_den (← jInt (← arg j "s")) c seq.toList with
         | none => pure (jErr "error")
         | some i => pure (ofInfo i)),
   ("count_polya_exons", fun j => do
@@ -166,6 +175,7 @@ def ops : List (String × Handler) := [
       pure (ofOptInt (shiftPolyt (← jIvList (← arg j "exons")) (← jInt (← arg j "k")) (← jInt (← arg j "pos"))))),
   ("add_polya_info", addPolyaHandler addPolyaInfo),
   ("add_polya_info_buggy", addPolyaHandler addPolyaInfoBuggy),
+  ("add_polya_info_orig_shift", addPolyaHandler addPolyaInfoOrigShift),
   ("alignment_polya", alignmentPolyaHandler addPolyaInfo),
   ("get_read_blocks", fun j => do
       match ← jCigar (← arg j "cigar") with
